@@ -39,6 +39,8 @@
 (* Bug # "none" seeds a defect into the model (sensitivity of the rule):   *)
 (*   "reverse"   output[i] built from tasks[n-1-i]                         *)
 (*   "sharedidx" the stream convert closure uses the shared loop variable  *)
+(*   "donebeforeerr" a panicking worker goroutine calls wg.Done() before   *)
+(*               its recover handler has stored the error                  *)
 (*   "dropempty" the stream convert function skips empty frames            *)
 (*   "concatinplace" the concatenation of message lists writes its result  *)
 (*               into the first frame instead of a fresh list              *)
@@ -170,7 +172,8 @@ Ret(i) ==
                                  IF sc.graph THEN [ev |-> "error", errs |-> <<>>, panic |-> TRUE] ELSE [ev |-> "escaped"])
                  /\ pc' = "done" /\ UNCHANGED ts
             ELSE /\ S' = Apply(S, TEnd(i, "panic", ""))
-                 /\ ts' = [ts EXCEPT ![i].step = 1, ![i].done = TRUE, ![i].err = "panic"] /\ UNCHANGED pc
+                 \* worker goroutine: recover() stores the error, then wg.Done(); "donebeforeerr": Done first, the error later (StoreErr)
+                 /\ ts' = [ts EXCEPT ![i].step = 1, ![i].done = TRUE, ![i].err = (IF Bug = "donebeforeerr" THEN "" ELSE "panic")] /\ UNCHANGED pc
        [] b = "fail" ->
             /\ S' = Apply(S, TEnd(i, "err", ""))
             /\ ts' = [ts EXCEPT ![i].step = 1, ![i].done = TRUE, ![i].err = "err"] /\ UNCHANGED pc
@@ -198,6 +201,10 @@ Send(i) ==
      ELSE /\ pc = "consume" /\ (Eager => NoPending)
           /\ ts' = [ts EXCEPT ![i].step = k + 1, ![i].avail = Append(@, Item(i, k)), ![i].eof = last]
   /\ UNCHANGED <<pc, sc, spawned, S, frames>>
+
+StoreErr(i) == /\ Bug = "donebeforeerr" /\ i > 1 /\ Len(ts) = N /\ Beh(i) = "panic" /\ ts[i].done /\ ts[i].err = "" /\ pc \in {"inline", "wait", "asm"}
+               /\ ts' = [ts EXCEPT ![i].err = "panic"]
+               /\ UNCHANGED <<pc, sc, spawned, S, sched, frames>>
 
 InlineDone == /\ pc = "inline" /\ ts[1].done
               /\ pc' = (IF N = 1 \/ Bug = "noinlinewait" THEN "asm" ELSE "wait")
@@ -265,7 +272,7 @@ Next == \/ \E nm \in {Unknown} \cup Range(Pool) : AddCall(nm)
         \/ \E k \in Kinds, b \in Behs, ch \in 1..MaxChunks : AddTool(k, b, ch)
         \/ \E h \in {"none"} \cup Handlers : Start(h)
         \/ GenTasks \/ Spawn
-        \/ \E i \in 1..Len(ts) : Ret(i) \/ Send(i) \/ Recv(i)
+        \/ \E i \in 1..Len(ts) : Ret(i) \/ Send(i) \/ Recv(i) \/ StoreErr(i)
         \/ InlineDone \/ WaitDone \/ Assemble \/ Finish \/ Done
 Spec == Init /\ [][Next]_vars /\ WF_vars(Next)
 
